@@ -593,6 +593,10 @@ def run(ctx):
     import props.C07_write as WS
     WS.prove_write_skeleton(ctx)
     WS.prove_sami_write_skeleton(ctx)         # (the sync bookkeeping starts afresh for every language)
+    WS.prove_single_positioning_write(ctx)    # (force= reaches the DFXP writer: the cues of the forced language, no others)
+    WS.prove_legacy_write_skeleton(ctx)
+    import props.C14 as C14
+    P("webvtt.WebVTTWriter.write/language", C14.webvtt_write_language, functions=[WebVTTWriter.write], crosscheck=False)   # (an absent lang= writes no cue)
     # the legacy / single-position DFXP writers merge exactly the runs of IDENTICAL spans (contract shared with C19)
     import props.C19 as C19
     P("base.merge_concurrent_captions", C19.mcc, functions=[C19.merge_concurrent_captions], setup_interp=C19.setup, crosscheck=False)
